@@ -346,6 +346,10 @@ func (d *Data) handleIndex(ctx *datastore.VersionedCtx, w http.ResponseWriter, r
 		}
 	}
 
+	if len(parts) < 5 {
+		server.BadRequest(w, r, "DVID requires label to follow 'index' command")
+		return
+	}
 	label, err := strconv.ParseUint(parts[4], 10, 64)
 	if err != nil {
 		server.BadRequest(w, r, err)
